@@ -3,6 +3,7 @@
 //! (b) scan of every Type<MetaForm> reachable from U1 / U3 for PhantomData members.
 //! Built twice by the driver: docs feature off and on.
 
+use vcommon::lit;
 use crate::oracle::{closure, metas_of};
 use rayon::prelude::*;
 use scale_info::{
@@ -285,7 +286,7 @@ fn fields_model_meta(spec: &FieldsSpec) -> Vec<Field<MetaForm>> {
     v.iter()
         .map(|s| field_model(s))
         .filter(|m| !kind_meta(m.kind).1)
-        .map(|m| Field::new(m.name, kind_meta(m.kind).0, m.type_name, m.docs))
+        .map(|m| lit::field(m.name, kind_meta(m.kind).0, m.type_name, m.docs))
         .collect()
 }
 fn fields_model_portable(spec: &FieldsSpec) -> Vec<Field<PortableForm>> {
@@ -295,7 +296,7 @@ fn fields_model_portable(spec: &FieldsSpec) -> Vec<Field<PortableForm>> {
     };
     v.iter()
         .map(|s| field_model(s))
-        .map(|m| Field::new(m.name.map(String::from), KIND_IDS[m.kind as usize].into(), m.type_name.map(String::from), if DOCS_ON { m.docs.iter().map(|s| s.to_string()).collect() } else { vec![] }))
+        .map(|m| lit::field(m.name.map(String::from), KIND_IDS[m.kind as usize].into(), m.type_name.map(String::from), if DOCS_ON { m.docs.iter().map(|s| s.to_string()).collect() } else { vec![] }))
         .collect()
 }
 
@@ -309,8 +310,8 @@ fn params_meta(k: u8) -> Vec<TypeParameter<MetaForm>> {
 fn params_portable(k: u8) -> Vec<TypeParameter<PortableForm>> {
     match k {
         0 => vec![],
-        1 => vec![TypeParameter::new_portable("T".into(), Some(0.into()))],
-        _ => vec![TypeParameter::new_portable("T".into(), None), TypeParameter::new_portable("U".into(), Some(u32::MAX.into()))],
+        1 => vec![lit::param("T".into(), Some(0.into()))],
+        _ => vec![lit::param("T".into(), None), lit::param("U".into(), Some(u32::MAX.into()))],
     }
 }
 
@@ -326,7 +327,7 @@ pub fn model_meta(s: &Script) -> Type<MetaForm> {
     }
     let path = Path::new("Built", "m::n");
     match &s.terminal {
-        Terminal::Composite(f) => Type::new(path, params, TypeDefComposite::new(fields_model_meta(f)), docs),
+        Terminal::Composite(f) => lit::ty(path, params, lit::composite(fields_model_meta(f)), docs),
         Terminal::Variant(vs) => {
             let variants: Vec<Variant<MetaForm>> = vs
                 .iter()
@@ -342,10 +343,10 @@ pub fn model_meta(s: &Script) -> Type<MetaForm> {
                             VSet::Docs(a, c) => docs_model(&mut d, *a, *c),
                         }
                     }
-                    Variant::new(VNAMES[*n as usize], fields, idx, d)
+                    lit::variant(VNAMES[*n as usize], fields, idx, d)
                 })
                 .collect();
-            Type::new(path, params, TypeDefVariant::new(variants), docs)
+            lit::ty(path, params, lit::variants(variants), docs)
         }
     }
 }
@@ -366,7 +367,7 @@ pub fn model_portable(s: &Script) -> Type<PortableForm> {
     }
     let path = Path::from_segments_unchecked(["m".to_string(), "Built".to_string()]);
     match &s.terminal {
-        Terminal::Composite(f) => Type::new(path, params, TypeDefComposite::new(fields_model_portable(f)), docs),
+        Terminal::Composite(f) => lit::ty(path, params, lit::composite(fields_model_portable(f)), docs),
         Terminal::Variant(vs) => {
             let variants: Vec<Variant<PortableForm>> = vs
                 .iter()
@@ -386,10 +387,10 @@ pub fn model_portable(s: &Script) -> Type<PortableForm> {
                             }
                         }
                     }
-                    Variant::new(VNAMES[*n as usize].to_string(), fields, idx, d)
+                    lit::variant(VNAMES[*n as usize].to_string(), fields, idx, d)
                 })
                 .collect();
-            Type::new(path, params, TypeDefVariant::new(variants), docs)
+            lit::ty(path, params, lit::variants(variants), docs)
         }
     }
 }
@@ -819,7 +820,7 @@ pub fn run(thorough: bool) -> i32 {
     }
     rep.set("distinct_nontrivial", json!(distinct.len()));
     rep.set("exhaustive", json!(true));
-    rep.set("rule", json!("every builder call script: field = every permutation of {ty|compact (5 kinds incl. two PhantomData), name, type_name?, docs|docs_always?}; composite = unit / named / unnamed with 0-3 fields; variant = every permutation of {index, fields?, discriminant?, docs?}; type = every permutation of {path, type_params?, docs?} incl. setters before path and repeated setters; both forms; non-trivial = distinct scripts; oracle = echo model built with Type::new/Field::new/Variant::new minus phantom members, docs kept iff always-variant or docs feature. Plus a scan of every definition reachable from U1 and the U3 table for PhantomData members (decided by the member's own definition path)"));
+    rep.set("rule", json!("every builder call script: field = every permutation of {ty|compact (5 kinds incl. two PhantomData), name, type_name?, docs|docs_always?}; composite = unit / named / unnamed with 0-3 fields; variant = every permutation of {index, fields?, discriminant?, docs?}; type = every permutation of {path, type_params?, docs?} incl. setters before path and repeated setters; both forms; non-trivial = distinct scripts; oracle = echo model built from struct literals (public fields only) minus phantom members, docs kept iff always-variant or docs feature. Plus a scan of every definition reachable from U1 and the U3 table for PhantomData members (decided by the member's own definition path)"));
     let _ = with_phantom_source;
     for s in all.iter().step_by(all.len() / 5 + 1) {
         rep.sample(json!(format!("{s:?}")));
